@@ -92,6 +92,172 @@ func checkConstIndex(p *Prog, r *Report, entries []*ssa.Function) {
 		}
 	}
 	r.Info("C08/MIN-LENGTH: %d constant-index/bound/decode sites in %d session-reachable functions [%s]", total, len(fns), p.Config)
+	checkStringIndex(p, r, fns)
+}
+
+// checkStringIndex — C08/STRING-INDEX: the same obligation for strings in the
+// packages that handle text received from the peer (filter rules, names,
+// argument lines): sender, receiver, rsyncd, rsyncwire.
+func checkStringIndex(p *Prog, r *Report, fns []*ssa.Function) {
+	rule := "C08/STRING-INDEX"
+	r.Rule(rule, "in the packages that handle text received from the peer (sender, receiver, rsyncd, rsyncwire) every constant index s[k] and constant slice bound s[:k] / s[k:] on a string in session-reachable code has the minimum length established by a dominating test (len(s) against a constant, s != \"\", strings.HasPrefix/HasSuffix(s, K)) or by construction: an empty rule, name or argument line from the peer must not panic the process", 1)
+	wire := map[string]bool{pkgSender: true, pkgReceiver: true, pkgRsyncd: true, pkgWire: true}
+	n := 0
+	for _, fn := range fns {
+		if !wire[pkgPathOfFunc(fn)] {
+			continue
+		}
+		for _, b := range fn.Blocks {
+			for _, in := range b.Instrs {
+				var s ssa.Value
+				need := int64(-1)
+				what := ""
+				isStr := func(t types.Type) bool {
+					bt, ok := t.Underlying().(*types.Basic)
+					return ok && bt.Info()&types.IsString != 0
+				}
+				switch x := in.(type) {
+				case *ssa.Lookup:
+					if isStr(x.X.Type()) {
+						if k, ok := constInt(x.Index); ok {
+							s, need, what = x.X, k+1, fmt.Sprintf("[%d]", k)
+						}
+					}
+				case *ssa.Index:
+					if isStr(x.X.Type()) {
+						if k, ok := constInt(x.Index); ok {
+							s, need, what = x.X, k+1, fmt.Sprintf("[%d]", k)
+						}
+					}
+				case *ssa.Slice:
+					if !isStr(x.X.Type()) {
+						continue
+					}
+					for _, bd := range []ssa.Value{x.Low, x.High} {
+						if bd == nil {
+							continue
+						}
+						if k, ok := constInt(bd); ok && k > 0 && k > need {
+							s, need, what = x.X, k, fmt.Sprintf("[…%d…]", k)
+						}
+					}
+				}
+				if s == nil || need <= 0 {
+					continue
+				}
+				n++
+				ok, why := minLenEstablished(s, need, in, 0)
+				if !ok {
+					ok, why = minLenViaLoads(s, need, in)
+				}
+				key := funcKey(fn) + " string " + what
+				if ok {
+					r.OK(rule, key, p.Pos(instrPos(in)), why)
+				} else {
+					r.Bad(rule, key, p.Pos(instrPos(in)), fmt.Sprintf("needs len ≥ %d of `%s`, which no dominating test establishes: an empty or short string from the peer panics the process", need, s.String()))
+				}
+			}
+		}
+	}
+	if n == 0 {
+		r.OK(rule, "no constant string index in the wire-facing packages", "-", "")
+	}
+}
+
+// minLenViaLoads: s is a load (of a field or local); accept a dominating fact
+// about another load of the same location when no store to that location lies
+// between (approximated: no store to the field/cell anywhere in the function
+// after the test … conservatively: none in the function except before the test).
+func minLenViaLoads(s ssa.Value, need int64, at ssa.Instruction) (bool, string) {
+	ld, ok := s.(*ssa.UnOp)
+	if !ok || ld.Op != token.MUL {
+		return false, ""
+	}
+	sameLoc := func(v ssa.Value) bool {
+		l2, ok := stripConv(v).(*ssa.UnOp)
+		if !ok || l2.Op != token.MUL {
+			return false
+		}
+		if l2.X == ld.X {
+			return true
+		}
+		b1, f1 := fieldOfAddr(ld.X)
+		b2, f2 := fieldOfAddr(l2.X)
+		return f1 != nil && f1 == f2 && sameShape(b1, b2, 0)
+	}
+	for _, f := range FactsAt(at) {
+		var factInstr ssa.Instruction
+		if f.If != nil {
+			factInstr = f.If
+		}
+		established := false
+		switch c := f.Cond.(type) {
+		case *ssa.BinOp:
+			for _, side := range [2]int{0, 1} {
+				a, b := c.X, c.Y
+				op := c.Op
+				if side == 1 {
+					a, b = c.Y, c.X
+					op = swapOp(op)
+				}
+				if !f.Val {
+					op = negOp(op)
+				}
+				if lc, ok := stripConv(a).(*ssa.Call); ok {
+					if bi, ok := lc.Common().Value.(*ssa.Builtin); ok && bi.Name() == "len" && sameLoc(lc.Common().Args[0]) {
+						if k, ok := constInt(b); ok {
+							if (op == token.GEQ && k >= need) || (op == token.GTR && k+1 >= need) || (op == token.EQL && k >= need) || (op == token.NEQ && k == 0 && need == 1) {
+								established = true
+							}
+						}
+					}
+				}
+				if sameLoc(a) {
+					if cs, ok := b.(*ssa.Const); ok && cs.Value != nil && cs.Value.Kind() == constant.String {
+						str := constant.StringVal(cs.Value)
+						if (op == token.NEQ && str == "" && need == 1) || (op == token.EQL && int64(len(str)) >= need) {
+							established = true
+						}
+					}
+				}
+			}
+		case *ssa.Call:
+			n := calleeName(c)
+			if f.Val && (n == "strings.HasPrefix" || n == "strings.HasSuffix") && sameLoc(c.Common().Args[0]) {
+				if cs, ok := c.Common().Args[1].(*ssa.Const); ok && cs.Value != nil && cs.Value.Kind() == constant.String && int64(len(constant.StringVal(cs.Value))) >= need {
+					established = true
+				}
+			}
+		}
+		if !established || factInstr == nil {
+			continue
+		}
+		// no store to the location between the test and the use (same function, on any path: approximated by
+		// "no store to that location that the test dominates and that can precede the use")
+		clobbered := false
+		fn := at.Parent()
+		for _, b := range fn.Blocks {
+			for _, in := range b.Instrs {
+				st, ok := in.(*ssa.Store)
+				if !ok {
+					continue
+				}
+				same := st.Addr == ld.X
+				if !same {
+					_, f1 := fieldOfAddr(ld.X)
+					_, f2 := fieldOfAddr(st.Addr)
+					same = f1 != nil && f1 == f2
+				}
+				if same && InstrDominates(factInstr, st) && mayFollow(st, at) {
+					clobbered = true
+				}
+			}
+		}
+		if !clobbered {
+			return true, "test on the same location, no store in between"
+		}
+	}
+	return false, ""
 }
 
 // minLenEstablished: is len(s) ≥ need known at `at`?
